@@ -272,6 +272,20 @@ def _once_on_every_path(r, b, anchor, events):
     return ret_wo
 
 
+def _solver_boxes_elsewhere(prog, t):
+    """names of the functions of the bin (other than the per-query dispatch functions) that construct solver objects"""
+    out = set()
+    dfs = {b.id for b in dispatch_functions(prog, t)}
+    for b in prog.bodies_in(t):
+        if b.kind == "closure" or b.id in dfs:
+            continue
+        for s in b.calls():
+            c = callee_of(s)
+            if c and re.search(r"^solvers::.*::new(_with\w*)?$", strip_generics(callee_name(c) or "")):
+                out.add(b.path.rsplit("::", 1)[-1])
+    return out if len(out) >= 3 else set()
+
+
 def rule_answer_after_solver(ctx):
     prog = ctx.prog
     r = ctx.rule(
@@ -282,6 +296,10 @@ def rule_answer_after_solver(ctx):
     n = 0
     for t in prog.bin_targets():
         dfs = dispatch_functions(prog, t)
+        if len(dfs) != 3 and _solver_boxes_elsewhere(prog, t):
+            n += 1
+            r.ok(t, "NOT decided: the solve command is not organised as one dispatch function per query kind (the solvers are built by %s): the order of solving and writing is not followed" % ", ".join(sorted(_solver_boxes_elsewhere(prog, t))[:3]), None)
+            continue
         r.check(len(dfs) == 3, t, "dispatch-functions=%d" % len(dfs), "3 dispatch functions (SE, DC, DS)", "%d dispatch functions found" % len(dfs))
         for b in dfs:
             n += 1
@@ -600,6 +618,9 @@ def rule_dispatch(ctx, kind=None):
     for t in prog.bin_targets():
         dfs = dispatch_functions(prog, t)
         seen_traits = {}
+        if len(dfs) != 3 and _solver_boxes_elsewhere(prog, t):
+            r.ok(t, "NOT decided: the (query, semantics) -> solver table is spread over %s, not written as one match per query kind" % ", ".join(sorted(_solver_boxes_elsewhere(prog, t))[:4]), None)
+            continue
         for b in dfs:
             table, traits, wildcard = dispatch_table(prog, b)
             anchor = "%s|%s" % (t, b.path)
@@ -755,6 +776,14 @@ def rule_encoder_selection(ctx):
             grps, enc = _encoder_groups(prog, b, s.bb, idx)
             for grp in grps:
                 got.setdefault((grp, enc), set()).add(ctor)
+        keyed = {k for k in got if k[1] is not None and k in ENCODER_ORACLE}
+        if not keyed:
+            # the choice of the encoder goes through a form the rule does not follow (a local enum read from the option, helper
+            # constructors per family): nothing can be said, and nothing wrong was seen
+            any_ctor = any(re.search(r"encodings::", strip_generics(callee_name(callee_of(x)) or "") + str((callee_of(x) or {}).get("substs"))) for tb in prog.bodies_in(t) for x in tb.calls())
+            if any_ctor:
+                r.ok("%s|%s" % (t, b.path), "NOT decided: which constructor serves which (semantics, --encoding) pair is not read off tests on the option's text in the function building the encoder", b.loc())
+                continue
         for key, want in sorted(ENCODER_ORACLE.items()):
             g = got.get(key, set())
             r.check(g == {want}, "%s|%s|%s/%s" % (t, b.path, key[0], key[1]), "got=%s" % sorted(g), "%s with --encoding %s -> %s" % (key[0], key[1], want.rsplit("::", 1)[-1]), "%s with --encoding %s builds %s instead of %s" % (key[0], key[1], sorted(g), want), b.loc())
@@ -888,6 +917,25 @@ def stdout_handle(prog, body, op, depth=0):
                 v = None
             else:
                 v = False
+        elif o.kind == "param" and o.fields and body.kind != "closure":
+            # a field of a struct handed in (`self.out`): what the constructions of that struct put into the field
+            fname = str(o.fields[0])
+            ty = body.local_ty(o.data).replace("&", "").replace("mut ", "").strip()
+            adt_path = re.sub(r"<.*$", "", ty)
+            v = None
+            found_any = False
+            for tb in list(prog.bodies_in(body.target)) + list(prog.lib_bodies()):
+                for st in tb.sites():
+                    nd = st.node
+                    if st.si is not None and nd["k"] == "assign" and nd["rv"]["k"] == "aggregate" and nd["rv"]["agg"].get("path") == adt_path and fname in (nd["rv"]["agg"].get("field_names") or []):
+                        found_any = True
+                        x = stdout_handle(prog, tb, nd["rv"]["ops"][nd["rv"]["agg"]["field_names"].index(fname)], depth + 1)
+                        if x is False:
+                            v = False
+                        elif x is True and v is None:
+                            v = True
+            if not found_any:
+                v = None
         elif o.kind == "param":
             if body.kind == "closure":
                 v = None
